@@ -305,6 +305,8 @@ func (s *Sim) step(a Action) {
 		s.gtpu.mu.Unlock()
 	case "krep":
 		s.mstep("krep", nil, func() { s.doKRep(a.KRep) })
+	case "armburst":
+		s.armed = a.KRep
 	case "kbuf":
 		if a.KBuf != nil {
 			s.mstep("kbuf", nil, func() { s.doKBuf(a.KBuf) })
@@ -336,6 +338,20 @@ func (s *Sim) resolveSEID(smf, slot int, raw uint64) (uint64, bool) {
 		return 0x7ffe0000 + uint64(slot), true
 	}
 	return sl.UP, true
+}
+
+func (s *Sim) doKRepNoSettle(items []KRepItem) {
+	var keys []RuleKey
+	var causes []uint32
+	for _, it := range items {
+		seid, _ := s.resolveSEID(it.SMF, it.Slot, it.SEID)
+		keys = append(keys, RuleKey{Kind: "urr", SEID: seid, ID: uint64(it.URR)})
+		causes = append(causes, it.Cause)
+	}
+	if len(keys) > 0 {
+		s.kern.emitReports(keys, causes)
+		s.logEvent("krep(burst) %d reports", len(keys))
+	}
 }
 
 func (s *Sim) doKRep(items []KRepItem) {
